@@ -642,6 +642,155 @@ static json gen_map() {
   return json{{"box", jb}, {"boxtype", bt}, {"types", types}, {"mols", mols}, {"has_pos", hp}, {"has_vel", hv}, {"has_f", hf}, {"translate", tr}};
 }
 
+
+// ------------------------------------------------------------------ frame sequences: the mapping of frame k must not depend on the frames before it
+static json gen_mols_for_box(const json &types, const std::vector<int> &moltypes, const json &jb) {
+  Box B = box_of(jb);
+  Eigen::Matrix3d bm = box_matrix(jb);
+  double hmin = B.open ? 2.0 : double(B.hmin);
+  json mols = json::array();
+  double rad = pick<double>({0.02, 0.1, 0.2, 0.24}) * hmin;
+  int wrapmode = ri(0, 2);
+  for (int t : moltypes) {
+    int na = int(types[size_t(t)]["atoms"].size());
+    Eigen::Vector3d fr(rfrac(0, 32, 32), rfrac(0, 32, 32), rfrac(0, 32, 32));
+    Eigen::Vector3d sh{double(smallshift()), double(smallshift()), double(smallshift())};
+    Eigen::Vector3d ctr = B.open ? Eigen::Vector3d(rfrac(-800, 800, 16), rfrac(-800, 800, 16), rfrac(-800, 800, 16)) : Eigen::Vector3d(bm * (fr + sh));
+    json pos = json::array(), vel = json::array(), f = json::array(), msh = json::array();
+    for (int a = 0; a < na; ++a) {
+      Eigen::Vector3d o(rfrac(-64, 64, 64), rfrac(-64, 64, 64), rfrac(-64, 64, 64));
+      double n = o.norm();
+      if (n > 1) o /= n * (1 + 1e-12);
+      Eigen::Vector3d p = ctr + rad * o;
+      if (!B.open) {
+        if (wrapmode == 1 || (wrapmode == 2 && rbool(30))) {
+          Eigen::Vector3d sfr = bm.inverse() * p;
+          Eigen::Vector3d fl(std::floor(sfr.x()), std::floor(sfr.y()), std::floor(sfr.z()));
+          p -= bm * fl;
+        }
+        if (wrapmode == 2) p += bm * Eigen::Vector3d(double(smallshift()), double(smallshift()), double(smallshift()));
+      }
+      pos.push_back(vec3(p.x(), p.y(), p.z()));
+      vel.push_back(vec3(rfrac(-400, 400, 8), rfrac(-400, 400, 8), rfrac(-400, 400, 8)));
+      f.push_back(vec3(rfrac(-4000, 4000, 8), rfrac(-4000, 4000, 8), rfrac(-4000, 4000, 8)));
+      msh.push_back(json::array({0, 0, 0}));
+    }
+    mols.push_back({{"type", t}, {"pos", pos}, {"vel", vel}, {"f", f}, {"mshift", msh}});
+  }
+  return mols;
+}
+
+static json gen_frames() {
+  json first = gen_map();
+  std::vector<int> moltypes;
+  for (auto &m : first.at("mols")) moltypes.push_back(int(m.at("type")));
+  json frames = json::array({first});
+  int nf = ri(2, 4);
+  json prevbox = first.at("box");
+  for (int k = 1; k < nf; ++k) {
+    json jb;
+    int how = ri(0, 9);
+    Box PB = box_of(prevbox);
+    if (how < 4 && !PB.open) {
+      // same edge lengths, only the tilt changes (shear at constant volume)
+      double ax = prevbox[0], by = prevbox[2], cz = prevbox[5];
+      jb = json::array({ax, skew(ax / 2), by, skew(ax / 2), skew(by / 2), cz});
+    } else if (how < 6 && !PB.open) {
+      // same shape, scaled
+      double sc = pick<double>({0.5, 0.75, 1.25, 2.0});
+      jb = prevbox;
+      for (auto &x : jb) x = double(x) * sc;
+    } else {
+      int kind;
+      jb = gen_box(kind);
+    }
+    json fr = first;
+    fr["box"] = jb;
+    fr["boxtype"] = "auto";
+    fr["mols"] = gen_mols_for_box(first.at("types"), moltypes, jb);
+    frames.push_back(fr);
+    prevbox = jb;
+  }
+  return json{{"frames", frames}};
+}
+
+static void set_frame(Sys &S, const json &c) {
+  bool hp = c.at("has_pos"), hv = c.at("has_vel"), hf = c.at("has_f");
+  size_t mi = 0;
+  for (auto &m : c.at("mols")) {
+    for (size_t a = 0; a < S.atoms[mi].size(); ++a) {
+      if (hp) S.atoms[mi][a]->setPos(ev(m.at("pos")[a]));
+      if (hv) S.atoms[mi][a]->setVel(ev(m.at("vel")[a]));
+      if (hf) S.atoms[mi][a]->setF(ev(m.at("f")[a]));
+    }
+    ++mi;
+  }
+  S.top.setBox(box_matrix(c.at("box")));
+}
+
+static Result run_frames(const json &c) {
+  Result r;
+  const json &frames = c.at("frames");
+  Sys S;
+  build(S, frames[0]);
+  bool box_changed = false, tilt_only = false, cut = false;
+  for (size_t k = 0; k < frames.size(); ++k) {
+    const json &fr = frames[k];
+    if (k > 0) {
+      set_frame(S, fr);
+      if (fr.at("box") != frames[k - 1].at("box")) box_changed = true;
+      const json &a = fr.at("box"), &b = frames[k - 1].at("box");
+      if (a[0] == b[0] && a[2] == b[2] && a[5] == b[5] && a != b) tilt_only = true;
+    }
+    bool threw = false, threw_ref = false;
+    std::string what;
+    try {
+      S.map->Apply();
+    } catch (const std::runtime_error &e) {
+      threw = true;
+      what = e.what();
+    }
+    // reference: the same frame mapped by a freshly built system (verified against the oracle by the sub 'map')
+    Sys F;
+    build(F, fr);
+    try {
+      F.map->Apply();
+    } catch (const std::runtime_error &) {
+      threw_ref = true;
+    }
+    if (threw != threw_ref) {
+      r.fail("TopologyMap/frame-history", fmt("frame %zu: %s in the running topology but %s in a fresh one (%s)", k, threw ? "rejected" : "mapped",
+                                              threw_ref ? "rejected" : "mapped", what.c_str()));
+      return r;
+    }
+    if (threw) continue;
+    Eigen::Matrix3d want = box_matrix(fr.at("box"));
+    if ((S.cg.getBox() - want).cwiseAbs().maxCoeff() > 0) {
+      r.fail("TopologyMap/stale-box", fmt("frame %zu: the mapped topology does not carry the box of this frame", k));
+      return r;
+    }
+    std::vector<CGOut> got = snapshot(S), ref = snapshot(F);
+    for (size_t i = 0; i < got.size(); ++i) {
+      auto differs = [](V3 a, V3 b) { return ninf(a - b) > 1e-9L * (1 + ninf(b)); };
+      if (got[i].hp != ref[i].hp || got[i].hv != ref[i].hv || got[i].hf != ref[i].hf || (got[i].hp && differs(got[i].p, ref[i].p)) ||
+          (got[i].hv && differs(got[i].v, ref[i].v)) || (got[i].hf && differs(got[i].f, ref[i].f)) || got[i].mass != ref[i].mass) {
+        r.fail("TopologyMap/frame-history", fmt("frame %zu bead %zu: mapped %s in the running topology, %s when the frame is mapped on its own", k, i,
+                                                sv(got[i].p).c_str(), sv(ref[i].p).c_str()));
+        return r;
+      }
+      if (got[i].hp && k > 0) {
+        // was some parent taken at another image than it is stored at?
+        cut = true;
+      }
+    }
+  }
+  r.nontrivial = box_changed && cut;
+  if (box_changed) r.cls("box-changes-between-frames");
+  if (tilt_only) r.cls("tilt-only-change");
+  r.cls("frames=" + std::to_string(frames.size()));
+  return r;
+}
+
 // ------------------------------------------------------------------ rejection clause
 static Result run_reject(const json &c) {
   Result r;
@@ -771,5 +920,6 @@ int main(int argc, char **argv) {
   std::vector<Sub> subs;
   subs.push_back({"map", gen_map, run_map, 3.0, 100, nullptr});
   subs.push_back({"reject", gen_reject, run_reject, 1.0, 100, nullptr});
+  subs.push_back({"frames", gen_frames, run_frames, 1.0, 100, nullptr});
   return harness_main(argc, argv, "C01", subs);
 }
